@@ -3,13 +3,16 @@ import IPT.Model.ExtLat
 namespace IPT
 variable {α : Type} [Add α] [Sub α] [Mul α] [Div α] [Neg α] [OfScientific α] [Sc α]
 
-/-- `while hour < 0. { hour += 24. }` with fuel -/
+/-- `while hour < 0. { hour += 24. }` with fuel (100 000 turns: hours down to −2.4·10⁶; the real loop has
+    no bound, and does not terminate for −∞ or for hours below about −10¹⁷, where adding 24 no longer
+    changes an f64 - outside every property's quantifier, see DESIGN 16.3) -/
 def wrapNeg (fuel : Nat) (hour : α) : Except Panic α :=
   match fuel with
   | 0 => if Sc.ltb hour 0.0 then .error (.fuel "hour_to_time:neg_wrap") else .ok hour
   | n + 1 => if Sc.ltb hour 0.0 then wrapNeg n (hour + Gen.HRS_PER_DAY) else .ok hour
 
-/-- `hour.rem(24.)` for hour >= 24 (fmod; see DESIGN §10) -/
+/-- `hour.rem(24.)` for hour >= 24 (equals fmod for hours below 2⁵⁶ ≈ 7.2·10¹⁶, where 24·k is exact;
+    beyond that it is not - outside every property's quantifier, see DESIGN §10, 16.3) -/
 def rem24 (hour : α) : α :=
   let k := Sc.floor (hour / Gen.HRS_PER_DAY)
   let r := hour - Gen.HRS_PER_DAY * k
